@@ -208,7 +208,7 @@ PROPS["C01"] = dict(
     floors={"quick": {"forced_collections": 50, "threshold_collections_that_freed_something": 10,
                       "sweeps_that_freed_something": 10, "rootkind_checked:stack": 1,
                       "rootkind_checked:root-holder": 1, "rootkind_checked:thread-local": 1, "rings": 1,
-                      "complete_graphs": 1, "deep_copies_checked": 5000, "rooted_shapes": 4, "root_holders_stored_in_thread_local_storage": 10,
+                      "complete_graphs": 1, "deep_copies_checked": 5000, "containers_retyped_by_assign": 300, "containers_obtained_by_copy": 300, "rooted_shapes": 4, "root_holders_stored_in_thread_local_storage": 10,
                       "root_holders_referenced_by_another_root_holder": 1, "edges_to_root_holders": 10,
                       "chains_of_1e6": 1, "container_bursts": 10, "cases_run_in_a_worker_thread": 20, "explicit_deletions": 5,
                       "boxes": 10}},
@@ -266,7 +266,7 @@ PROPS["C06"] = dict(
                       "deletions_inside_stop_window": 10, "allocations_inside_stop_window": 10,
                       "worker_teardowns_with_live_garbage": 50, "process_teardowns_with_live_garbage": 50,
                       "del_root": 20, "del_raw": 20, "del_of_box": 10, "containers_of_boxes": 20,
-                      "forced_collections": 50}},
+                      "forced_collections": 50, "deep_copies_of_owners": 300, "deep_copies_deleted_by_hand": 80}},
     rule="case = 30-150 (thorough: up to 330) random allocation/deletion/ownership/collection/stop-start operations "
          "on the main thread, in a worker thread, or in a forked child process; distinct = hash of the operation "
          "list; non-trivial = at least 20 operations",
